@@ -908,6 +908,8 @@ static Stats g_stats[3];
 static long g_cap = 30;         // cap on sampled depth-2 combinations per (template, argument types, deep holes)
 static long g_tried = 0, g_wellTyped = 0;
 static bool g_skipDepth2 = false;
+static std::string g_binderFilter{};  // -binder TEXT: only binder templates containing TEXT
+static long g_capBinder = 300;        // cap on body combinations per (binder template, domain)
 
 //! Type-check once, evaluate under every variant (typing is the same in all of them).
 static bool Run(const std::string& text, std::string& type) {
@@ -1111,6 +1113,7 @@ static void RunAll() {
 
   const long beforeBinders = g_wellTyped;
   for (const auto& t : BINDERS) {
+    if (!g_binderFilter.empty() && std::string{ t.pattern }.find(g_binderFilter) == std::string::npos) continue;
     const auto holes = Holes(t);
     const size_t n = holes.size();
     std::vector<const std::vector<Ex>*> lists{};
@@ -1152,7 +1155,9 @@ static void RunAll() {
       const auto& valid = validByType.at(typeKey);
       uint64_t total = 1;
       for (const size_t h : bodyHoles) total *= valid[h].size();
-      for (uint64_t lin = 0; lin < total; ++lin) {
+      const uint64_t stride = (bodyHoles.size() >= 2 && total > static_cast<uint64_t>(g_capBinder))
+        ? (total + g_capBinder - 1) / g_capBinder : 1;
+      for (uint64_t lin = 0; lin < total; lin += stride) {
         std::vector<const Ex*> args = base;
         uint64_t rest = lin;
         for (const size_t h : bodyHoles) {
@@ -1201,6 +1206,7 @@ int main(int argc, char** argv) {
     else if (!strcmp(argv[i], "-only") && i + 1 < argc) only = argv[++i];
     else if (!strcmp(argv[i], "-skip2")) gen::g_skipDepth2 = true;
     else if (!strcmp(argv[i], "-fixed")) g_fixedLibrary = true;
+    else if (!strcmp(argv[i], "-binder") && i + 1 < argc) gen::g_binderFilter = argv[++i];
   }
   setvbuf(stdout, nullptr, _IOLBF, 0);
   if (only.empty() || only == "sets") TestSetAlgebra();
